@@ -34,6 +34,10 @@ type Prop struct {
 	WatchdogSec func(tier string) int
 	// ChildProcs limits how many children run at once (0 = NumCPU).
 	ChildProcs int
+	// MemCapMiB: the parent polls the resident memory of every child (/proc/<pid>/statm) and kills a child
+	// that passes this cap (0 = no cap). It is the out-of-process guard for monitored calls that run away so
+	// fast that no goroutine of the child, including its own supervisor, is scheduled any more.
+	MemCapMiB int
 }
 
 var registry = map[string]*Prop{}
@@ -88,6 +92,8 @@ type childResult struct {
 	jInput   string
 	jFlight  bool
 	raceLogs []string
+	memCap   bool
+	peakRSS  int64
 }
 
 // RaceReport is one de-duplicated data race report.
@@ -163,6 +169,34 @@ func parseRaceLog(text string, into map[string]*RaceReport) int {
 		}
 	}
 	return n
+}
+
+// limitWriter keeps the first bytes of a child's output and discards the rest.
+type limitWriter struct {
+	mu   sync.Mutex
+	f    *os.File
+	left int
+}
+
+func (l *limitWriter) Write(b []byte) (int, error) {
+	l.mu.Lock()
+	defer l.mu.Unlock()
+	n := len(b)
+	if l.left > 0 {
+		if len(b) > l.left {
+			b = b[:l.left]
+		}
+		l.f.Write(b)
+		l.left -= len(b)
+	}
+	return n, nil
+}
+
+func clipStr(s string, n int) string {
+	if len(s) > n {
+		return s[:n] + "..."
+	}
+	return s
 }
 
 func tail(path string, n int) string {
@@ -259,8 +293,12 @@ func Check(p *Prop, o Options) int {
 		raceBlocks               int
 		died                     int
 	)
+	var peakRSS int64
 	for i := range results {
 		r := &results[i]
+		if r.peakRSS > peakRSS {
+			peakRSS = r.peakRSS
+		}
 		for _, rl := range r.raceLogs {
 			raceBlocks += parseRaceLog(rl, races)
 		}
@@ -270,7 +308,12 @@ func Check(p *Prop, o Options) int {
 				continue
 			}
 			died++
-			if r.jFlight {
+			if r.jFlight && r.memCap {
+				nviol++
+				viols = append(viols, Violation{Case: r.jCase,
+					Msg:    fmt.Sprintf("the monitored process passed the resident-memory cap of %d MiB during this call into poly (resident %d MiB when it was stopped); journalled call: %s", p.MemCapMiB, r.peakRSS>>20, clipStr(r.jInput, 600)),
+					Replay: map[string]any{"journal_input": r.jInput}})
+			} else if r.jFlight {
 				nviol++
 				viols = append(viols, Violation{Case: r.jCase,
 					Msg:    "the monitored process died during this call into poly (" + r.exitErr + "); log tail:\n" + r.logTail,
@@ -443,6 +486,8 @@ func Check(p *Prop, o Options) int {
 			"shards":                nshards,
 			"children_died":         died,
 			"race_detector":         p.Race,
+			"peak_child_resident_mib": peakRSS >> 20,
+			"child_resident_cap_mib":  p.MemCapMiB,
 			"race_report_blocks":    raceBlocks,
 			"race_reports_distinct": len(raceList),
 			"verdict":               []string{"held on what was observed", "violated", "inconclusive"}[exit],
@@ -531,8 +576,9 @@ func runChild(p *Prop, o Options, work string, shard, nshards, wdSec int) childR
 		args = append(args, "--only", o.Only)
 	}
 	cmd := exec.Command(o.Exe, args...)
-	cmd.Stdout = lf
-	cmd.Stderr = lf
+	lw := &limitWriter{f: lf, left: 64 << 20} // a SIGQUIT dump of a runaway child can be gigabytes
+	cmd.Stdout = lw
+	cmd.Stderr = lw
 	cmd.Env = append(os.Environ(),
 		"GORACE=halt_on_error=0 history_size=5 log_path="+filepath.Join(work, fmt.Sprintf("race-%d", shard)),
 		"GOTRACEBACK=all")
@@ -544,16 +590,41 @@ func runChild(p *Prop, o Options, work string, shard, nshards, wdSec int) childR
 	done := make(chan error, 1)
 	go func() { done <- cmd.Wait() }()
 	var err error
-	select {
-	case err = <-done:
-	case <-time.After(time.Duration(wdSec) * time.Second):
-		res.watchdog = true
-		syscall.Kill(-cmd.Process.Pid, syscall.SIGQUIT)
+	deadline := time.After(time.Duration(wdSec) * time.Second)
+	poll := time.NewTicker(50 * time.Millisecond)
+	defer poll.Stop()
+	statm := fmt.Sprintf("/proc/%d/statm", cmd.Process.Pid)
+wait:
+	for {
 		select {
 		case err = <-done:
-		case <-time.After(10 * time.Second):
-			syscall.Kill(-cmd.Process.Pid, syscall.SIGKILL)
-			err = <-done
+			break wait
+		case <-poll.C:
+			if b, e := os.ReadFile(statm); e == nil {
+				var size, rss int64
+				if n, _ := fmt.Sscan(string(b), &size, &rss); n == 2 {
+					rss *= int64(os.Getpagesize())
+					if rss > res.peakRSS {
+						res.peakRSS = rss
+					}
+					if p.MemCapMiB > 0 && rss > int64(p.MemCapMiB)<<20 {
+						res.memCap = true
+						syscall.Kill(-cmd.Process.Pid, syscall.SIGKILL)
+						err = <-done
+						break wait
+					}
+				}
+			}
+		case <-deadline:
+			res.watchdog = true
+			syscall.Kill(-cmd.Process.Pid, syscall.SIGQUIT)
+			select {
+			case err = <-done:
+			case <-time.After(10 * time.Second):
+				syscall.Kill(-cmd.Process.Pid, syscall.SIGKILL)
+				err = <-done
+			}
+			break wait
 		}
 	}
 	lf.Close()
